@@ -18,6 +18,10 @@
 (* Block kinds are the verdict styles found in the library:                 *)
 (*   src_eof    VectorSource / FileSource: returns EOF from the call in     *)
 (*              which it commits its last data                              *)
+(*   src_pending  RtlSdrSource / FileSource-with-partial-read style: every     *)
+(*              other call answers Pending without moving anything (data    *)
+(*              not there yet), the calls in between commit and say Again   *)
+(*              (EOF with the last piece)                                   *)
 (*   src_wait   SigMFSource / ConstantSource style: commits, then answers   *)
 (*              WaitForStream(dst)                                          *)
 (*   sync       derive(sync) blocks, FirFilter...: Again iff data moved     *)
@@ -99,6 +103,13 @@ Work(b) ==
        ELSE LET n == Min(space, left) IN
             <<left - n, [q EXCEPT ![b] = @ + n], phase, got,
               IF left - n = 0 THEN "eof" ELSE "again">>
+  ELSE IF k = "src_pending" THEN
+       IF left = 0 THEN <<left, q, phase, got, "eof">>
+       ELSE IF phase[b] = 0 THEN <<left, q, [phase EXCEPT ![b] = 1], got, "pending">>
+       ELSE IF space = 0 THEN <<left, q, phase, got, "wait">>
+       ELSE LET n == Min(space, left) IN
+            <<left - n, [q EXCEPT ![b] = @ + n], [phase EXCEPT ![b] = 0], got,
+              IF left - n = 0 THEN "eof" ELSE "again">>
   ELSE IF k = "src_wait" THEN
        IF left = 0 THEN <<left, q, phase, got, "eof">>
        ELSE LET n == Min(space, left) IN
@@ -153,7 +164,7 @@ Step ==
         LET r == Work(b) IN
         /\ left' = r[1] /\ q' = r[2] /\ phase' = r[3] /\ got' = r[4]
         /\ eof' = [eof EXCEPT ![b] = (r[5] = "eof")]
-        /\ done' = IF r[5] = "again" THEN FALSE ELSE done
+        /\ done' = IF r[5] \in {"again", "pending"} THEN FALSE ELSE done
         /\ moved' = (moved \/ Moves(b))
         /\ calls' = [calls EXCEPT ![b] = @ + 1]
         /\ after' = [after EXCEPT ![b] = IF cancelled THEN @ + 1 ELSE @]
